@@ -167,7 +167,9 @@ IMPORT_FILES = {"none": None, "zero": "VALUE = 1\n", "one": "import os\n\nVALUE 
                 # given as a dotted path through an alias that the prepend imports (resolved via the prepend's symbols)
                 "alias_dotted": "import os\nimport shutil\n\nVALUE = 2\n",
                 # a __future__ import among the others: it has to stay the first statement of the generated module
-                "future": "from __future__ import annotations\nimport os\nfrom typing import Optional\n\nVALUE = 3\n"}
+                "future": "from __future__ import annotations\nimport os\nfrom typing import Optional\n\nVALUE = 3\n",
+                # root-level imports in two groups with another statement between them: every one of them is carried over
+                "split_groups": "import os\nimport json\n\n__author__ = 'x'\n\nfrom collections import OrderedDict\nfrom typing import List\n\nVALUE = 4\n"}
 # how the mapping is spelled in the input module: "dictionary / mapping / 2-tuple collection" (incl. one-shot iterables)
 MAPFORMS = {"dict": "MAPPING = {%(items)s}", "pairs": "MAPPING = [%(pairs)s]", "zip": "MAPPING = zip([%(names)s], [%(objs)s])",
             "genexpr": "MAPPING = ((n, o) for n, o in [%(pairs)s])"}
